@@ -79,6 +79,8 @@ let parse_graph ts =
     let phony = next_int ts = 1 in
     let p = next ts in
     let pool = if p = "n" then None else Some (bytes_of_hex (String.sub p 1 (String.length p - 1))) in
+    let _cmd = next ts in
+    let _rsp = next ts in
     { b_ins = ins; b_explicit = nat_of_int e; b_implicit = nat_of_int i; b_order_only = nat_of_int o;
       b_outs = outs; b_phony = phony; b_pool = pool }) in
   let files = times nf (fun () ->
@@ -285,6 +287,89 @@ let dedup_line fixed l =
     Printf.sprintf "ok %d %s" (int_of_nat e') (String.concat " " (List.map (fun x -> string_of_int (int_of_nat x)) o))
   | _ -> "bad"
 
+(* ---- world: PHASE <reload> WG nb (B nins names.. e i o nouts names.. cmd rsp)*  then once: FS n (name mtime)* DB hex|none ; per phase EV n events ---- *)
+let opt_tok t = if t = "n" then None else Some (bytes_of_hex (String.sub t 1 (String.length t - 1)))
+
+let parse_wgraph ts =
+  expect ts "WG";
+  let nb = next_int ts in
+  let builds = times nb (fun () ->
+    expect ts "B";
+    let nins = next_int ts in
+    let ins = times nins (fun () -> bytes_of_hex (next ts)) in
+    let e = next_int ts in let i = next_int ts in let o = next_int ts in
+    let nouts = next_int ts in
+    let outs = times nouts (fun () -> bytes_of_hex (next ts)) in
+    let cmd = opt_tok (next ts) in
+    let r = next ts in
+    let rsp = if r = "n" then None else
+        (let body = String.sub r 1 (String.length r - 1) in
+         match String.index_opt body ':' with
+         | Some k -> Some (bytes_of_hex (String.sub body 0 k), bytes_of_hex (String.sub body (k + 1) (String.length body - k - 1)))
+         | None -> None) in
+    { wb_ins = ins; wb_explicit = nat_of_int e; wb_implicit = nat_of_int i; wb_order_only = nat_of_int o;
+      wb_outs = outs; wb_cmdline = cmd; wb_rsp = rsp }) in
+  let prods = List.concat (List.mapi (fun bi b -> List.map (fun o -> (o, nat_of_int bi)) b.wb_outs) builds) in
+  { w_builds = builds; w_producer = prods }
+
+let mt_of_int i = (n_of_int (1500000000 + i), N0)
+
+let parse_wevent ts =
+  match next ts with
+  | "v" -> let b = nat_of_int (next_int ts) in WVerdict (b, n_of_int (next_int ts))
+  | "f" -> let b = nat_of_int (next_int ts) in let t = n_of_int (next_int ts) in
+    let d = next ts in
+    let deps = if d = "~" then None else if d = "-" then Some []
+      else Some (List.map bytes_of_hex (String.split_on_char ';' d)) in
+    WFinish (b, t, deps)
+  | "r" -> let b = nat_of_int (next_int ts) in WRecord (b, n_of_hexnum (next ts))
+  | "nr" -> WNoRecord (nat_of_int (next_int ts))
+  | "a" -> WAdopt (nat_of_int (next_int ts))
+  | "w" -> let n = bytes_of_hex (next ts) in let m = next ts in
+    WWrite (n, if m = "x" then None else Some (mt_of_int (int_of_string m)))
+  | s -> raise (Parse ("wevent " ^ s))
+
+let world_line l =
+  try
+    let ts = toks_of_line l in
+    expect ts "FS";
+    let nf = next_int ts in
+    let fs = times nf (fun () -> let n = bytes_of_hex (next ts) in let m = next_int ts in (n, mt_of_int m)) in
+    expect ts "DB";
+    let dbt = next ts in
+    let db = if dbt = "none" then [] else bytes_of_hex dbt in
+    let state : wstate option ref = ref None in
+    let fs_now = ref fs in
+    let log_now = ref db in
+    let out = ref [] in
+    let stop = ref false in
+    while peek_tok ts = "PHASE" && not !stop do
+      expect ts "PHASE";
+      let reload = next_int ts = 1 in
+      let g = parse_wgraph ts in
+      expect ts "EV";
+      let ne = next_int ts in
+      let evs = times ne (fun () -> parse_wevent ts) in
+      let st0 = (match (!state, reload) with
+        | (Some s, false) -> Ok s
+        | _ -> load_state g !fs_now !log_now) in
+      (match st0 with
+       | Ok s ->
+         (match replay g s None evs O with
+          | WOk s' -> state := Some s'; fs_now := s'.ws_fs; log_now := s'.ws_log; out := "ok" :: !out
+          | WMismatch (i, what, detail) ->
+            out := (Printf.sprintf "mismatch %d %d %s" (int_of_nat i) (int_of_n what) (hex_of_bytes detail)) :: !out; stop := true
+          | WBroken (i, _) -> out := (Printf.sprintf "broken %d" (int_of_nat i)) :: !out; stop := true)
+       | Err m -> out := ("loaderr " ^ hex_of_bytes m) :: !out; stop := true
+       | _ -> out := "loadbroken" :: !out; stop := true)
+    done;
+    String.concat " | " (List.rev !out) ^ " log=" ^ hex_of_bytes !log_now
+  with Parse m -> "parse-error " ^ m | Failure m -> "parse-error " ^ m
+
+let hash_line l =
+  (* hex of the manifest stream -> siphash *)
+  "ok " ^ hexnum_of_n (siphash13 (bytes_of_hex l))
+
 let suites : (string * (string -> string)) list =
   [ ("canon_impl", canon_impl_line); ("canon", canon_line); ("canon_sem", sem_line);
     ("depfile", depfile_line true); ("depfile_pinned", depfile_line false);
@@ -294,7 +379,7 @@ let suites : (string * (string -> string)) list =
     ("truncate", truncate_line); ("bar", bar_line); ("status", status_line);
     ("inv", inv_line); ("select", select_line);
     ("dbopen", dbopen_line); ("dbwrite", dbwrite_line);
-    ("load", load_line); ("dedup", dedup_line true); ("dedup_pinned", dedup_line false) ]
+    ("load", load_line); ("world", world_line); ("siphash", hash_line); ("dedup", dedup_line true); ("dedup_pinned", dedup_line false) ]
 
 let () =
   let suite = if Array.length Sys.argv > 1 then Sys.argv.(1) else "" in
